@@ -269,3 +269,12 @@ _ISDIGIT = z3.Function('py_isdigit', z3.StringSort(), z3.BoolSort())
 calls.SPECFUNS['py_isdigit'] = lambda st, args: Val(T.BOOL, _ISDIGIT(args[0].z))
 calls.METHOD_MODELS[('bytes', 'isdigit')] = lambda st, recv, args, kw: Val(T.BOOL, _ISDIGIT(recv.z))
 calls.METHOD_MODELS[('str', 'isdigit')] = lambda st, recv, args, kw: Val(T.BOOL, _ISDIGIT(recv.z))
+
+from pyvc.registry import bounded
+bounded(['C18'], 'bounded/pp_roundtrip.py',
+        'the three real handle() methods end to end over a short-reading socket: every generated well-formed v1/v2 '
+        'header (TCP4/TCP6/UNKNOWN; PROXY/LOCAL x INET/INET6/UNIX/UNSPEC, 0..9 TLV bytes, boundary addresses and ports) '
+        'yields exactly the encoded source address, consumes exactly the header and leaves the payload; all '
+        'single-byte corruptions and truncations of a sample: no exception escapes, read bound kept, surely '
+        'malformed headers get the invalid address (the part of C18 that split() and the v2 bit layout put out of '
+        'the contracts\' reach)')
